@@ -500,6 +500,26 @@ func (e *Exec) sliceText(s *State, i *ssa.Slice, x Text) (Val, string) {
 		}
 		return lit(cs[lo:hi]), ""
 	}
+	// s[:1] / s[1:] of an unknown string: in bounds iff len(s) >= 1; the halves
+	// are derived atoms.
+	if len(x.Frags) == 1 && x.Frags[0].Kind == FAtom {
+		lo, ok1 := geti(i.Low, 0)
+		hi, ok2 := geti(i.High, -1)
+		a := x.Frags[0].Atom
+		lv := mkVar("len!"+a, SInt)
+		if _, done := s.Ghost["lenfact:"+a]; !done {
+			s.Ghost["lenfact:"+a] = tTrue
+			s.assume(mkAnd(mkCmp(">=", lv, mkInt(0)), mkIff(mkEq(lv, mkInt(0)), atomEmptyVar(a))))
+		}
+		if ok1 && ok2 && ((lo == 0 && hi == 1) || (lo == 1 && hi == -1)) {
+			e.emitSafety(s, "slice-bounds", e.pos(i), mkCmp(">=", lv, mkInt(1)))
+			s.assume(mkCmp(">=", lv, mkInt(1))) // execution continues only when in bounds
+			if lo == 0 {
+				return atom("head(" + a + ")"), ""
+			}
+			return atom("tail(" + a + ")"), ""
+		}
+	}
 	unsupported("slice of non-concrete string %s", x)
 	return nil, ""
 }
